@@ -586,6 +586,38 @@ type hPop struct {
 
 // build an HTTPRequest. bodyKind: 0 none, 1 form (pops of kind form/body become form members), 2 json (jbody)
 func buildRequest(pops []hPop, bodyKind int, jbody []byte, uriPath string) (*http.HTTPRequest, error) {
+	r, _, err := buildRequest2(pops, bodyKind, jbody, uriPath)
+	return r, err
+}
+
+// intendedView: what was PUT into the URL query, the path params, the headers and the form body (last value per key), in the
+// case format of requestView. The checker compares the getters' answers with it: GetQuery must read the URL query only,
+// GetPostForm (and GetMapBody of a form request) the body only.
+func intendedView(q, form url.Values, hdr, params map[string]string, keys []string) []string {
+	var trip []string
+	n := 0
+	add := func(kind int, k, v string) {
+		if v != "" {
+			trip = append(trip, fi(kind), fs(k), fs(v))
+			n++
+		}
+	}
+	for _, k := range keys {
+		add(hkQuery, k, q.Get(k))
+		add(hkPath, k, params[k])
+		add(hkHeader, k, hdr[k])
+		add(hkForm, k, form.Get(k))
+	}
+	out := []string{fi(n)}
+	return append(out, trip...)
+}
+
+type hIntended struct {
+	q, form     url.Values
+	hdr, params map[string]string
+}
+
+func buildRequest2(pops []hPop, bodyKind int, jbody []byte, uriPath string) (*http.HTTPRequest, *hIntended, error) {
 	q := url.Values{}
 	form := url.Values{}
 	for _, p := range pops {
@@ -619,7 +651,7 @@ func buildRequest(pops []hPop, bodyKind int, jbody []byte, uriPath string) (*htt
 	body = &rewindBody{data: raw}
 	sr, err := stdh.NewRequest(method, u, body)
 	if err != nil {
-		return nil, err
+		return nil, nil, err
 	}
 	if bodyKind == 1 {
 		sr.Header.Set("Content-Type", "application/x-www-form-urlencoded")
@@ -627,17 +659,24 @@ func buildRequest(pops []hPop, bodyKind int, jbody []byte, uriPath string) (*htt
 		sr.Header.Set("Content-Type", "application/json")
 	}
 	var params []http.Param
+	in := &hIntended{q: q, form: url.Values{}, hdr: map[string]string{}, params: map[string]string{}}
+	if bodyKind == 1 {
+		in.form = form
+	}
 	for _, p := range pops {
 		switch p.Kind {
 		case hkHeader:
 			sr.Header.Set(p.Key, p.Val)
+			in.hdr[p.Key] = p.Val
 		case hkCookie:
 			sr.AddCookie(&stdh.Cookie{Name: p.Key, Value: p.Val})
 		case hkPath:
 			params = append(params, http.Param{Key: p.Key, Value: p.Val})
+			in.params[p.Key] = p.Val
 		}
 	}
-	return http.NewHTTPRequestFromStdReq(sr, params...)
+	hr, err := http.NewHTTPRequestFromStdReq(sr, params...)
+	return hr, in, err
 }
 
 // what the getters of the request return for every key of the universe (the checker's view of the request)
